@@ -86,6 +86,49 @@ def dev_bonly(C, P, RULE):
     return ic, ms
 
 
+def own_set_rule(C, P, RULE):
+    """merge_sub_elements: the file set handed down for a merged element is the element's OWN set when it has one (the parent's
+    set only when it inherits): model-only children are stamped with that set, so the parent's wider set would attribute them to
+    files their parent element is not in (shared by C09 and C10)"""
+    msub = P.get('AutosarModel::merge_sub_elements')
+    rec = calls(msub, r'AutosarModel>::merge_element$')
+    if len(rec) != 1:
+        C.anchor_missing(RULE, 'merge_sub_elements: recursive merge_element call')
+        return
+    t = msub.blocks[rec[0][0]]['term']
+    # all origins of the files argument (it is a phi of two clones): follow every definition
+    from flow import defs_of
+    fields, names = set(), set()
+    work = [t['args'][1]]; seen = set()
+    while work:
+        o = work.pop()
+        if not is_local_op(o):
+            continue
+        for p_ in o.get('p', []):
+            if p_.startswith('.') and not p_[1:2].isdigit():
+                fields.add(p_[1:])
+        if o['l'] in seen:
+            continue
+        seen.add(o['l'])
+        if o['l'] in msub.names:
+            names.add(msub.names[o['l']])
+        for q, st in defs_of(msub, o['l']):
+            if st['k'] == 'call':
+                work.extend(a for a in st['args'] if is_local_op(a))
+            elif st['k'] == 'assign':
+                rv = st['rv']
+                if 'pl' in rv:
+                    work.append(rv['pl'])
+                for k in ('o', 'a', 'b'):
+                    if k in rv:
+                        work.append(rv[k])
+                work.extend(rv.get('ops', []))
+    own = 'ElementRaw.file_membership' in fields
+    emp = [q for q in calls(msub, r'HashSet::<T, S, A>::is_empty$') if 'ElementRaw.file_membership' in deep_sources(msub, msub.blocks[q[0]]['term']['args'][0], depth=10)[2] and msub.pos_dominates(q, rec[0])]
+    C.check(own and bool(emp), RULE, 'merge_sub_elements|recursion-gets-the-elements-own-set', 'merge_sub_elements hands the PARENT\'s file set down for an element that has its own (restricted) set: children that exist only in the model are then attributed to files their parent element is not in '
+            '(after removing such a file the child stays in the model and is written to no file)', msub.where(rec[0]), sample={'fn': 'merge_sub_elements', 'files_argument': 'elem_a.file_membership if non-empty else files'})
+
+
 def run(ctx):
     C = Check('C09', ctx['tier'], 'other', ctx['seed'])
     P = Program(ctx['facts'])
@@ -198,6 +241,7 @@ def run(ctx):
         t = msub.blocks[rec[0][0]]['term']
         n_, c_, f_ = deep_sources(msub, t['args'][1], depth=12)
         C.check(('files' in n_) and 'new_file' not in n_, 'C09-MUST-restrict', 'merge_sub_elements|recursion-gets-files-before-merge', 'the file set handed to the recursive merge is not the set of files the element was in before the merge', msub.where(rec[0]))
+        own_set_rule(C, P, 'C09-MUST-restrict')
         C.check(bool(loopb), 'C09-MUST-restrict', 'merge_sub_elements|every-pair-is-merged', 'merge_sub_elements does not merge every pair (no loop around merge_element)')
     # merge_file_data: root gains new_file after success
     rm = calls(mfd, r'AutosarModel>::merge_element$')
